@@ -279,6 +279,7 @@ impl Model for P {
     fn new(cfg: &PCfg) -> Self {
         crate::clock::enable(crate::clock::BASE_SECS * 1_000_000_000);
         sched::take_panics();
+        sched::own_select();
         let rt = sched::new_runtime();
         let pre = common::preimage(1);
         let hash = common::hash_of(&pre);
